@@ -80,6 +80,31 @@ def run_twins(chk, scenarios, label):
         shutil.rmtree(work, ignore_errors=True)
 
 
+def run_vector_twins(chk):
+    """One definition with a vector parameter name[n] and its control parameter, written in C and in numpy, in
+    three table orders; explicit dyadic meshes; the two executions side by side (Twin events)."""
+    work = vlib.scratch("c09v")
+    try:
+        outs = vlib.run_workers_parallel("w_vectwin.py", [{"workdir": os.path.join(work, "vt"), "first_tid": 1,
+                                                           "seed": chk.seed, "nsets": 40 if chk.tier == "thorough" else 8}],
+                                         work, timeout=1800)
+        evs = [e for o in outs for e in o]
+        if len(evs) < 6:
+            raise vlib.Machinery("vector twin worker returned %d events" % len(evs))
+        v = vlib.validate_trace("PdMeshTrace", evs, timeout=1800)
+        chk.cov["traces_validated_against_impl"] += len(evs)
+        for tid, line, clause, detail in v["rejects"]:
+            e = evs[line - 1]
+            chk.violation({"clause": clause, "class": "vector-parameter", "engine": "py-vs-c", "valid": 0, "order": e.get("of")},
+                          {"scenario": {"vector-twin": e.get("of"), "n": e.get("n"), "kind": e.get("kind")}, "clause": clause,
+                           "detail": detail[:2500]})
+        for e in evs:
+            chk.case(["vector-twin", e.get("of"), e.get("n"), e.get("kind"), json.dumps(e["c"], sort_keys=True)], nontrivial=True,
+                     sample={"vector-twin": e.get("of"), "n": e.get("n"), "kind": e.get("kind")})
+    finally:
+        shutil.rmtree(work, ignore_errors=True)
+
+
 def run_definitions(chk, limit=None):
     r = vlib.tlc_must_pass("Definition", "Definition.cfg", timeout=900)
     chk.add_tlc(r, "Definition (bases + single-fault mutations)")
@@ -154,6 +179,9 @@ def run(chk, args):
     thorough = chk.tier == "thorough"
     if args.replay:
         sc = json.load(open(args.replay))["detail"]["scenario"]
+        if "vector-twin" in sc:
+            run_vector_twins(chk)
+            return
         if "definition" in sc:
             raise vlib.Machinery("replay of a definition: rerun the check (definitions are enumerated exhaustively)")
         if "def" in sc:
@@ -167,13 +195,15 @@ def run(chk, args):
         chk.design_violation(r, "PdMesh")
     run_definitions(chk, limit=None if thorough else 6)
     run_twins(chk, make_twin_scenarios(chk.tier, chk.seed), "twins")
+    run_vector_twins(chk)
     pym = builtin_mean.list_models("py") if thorough else QUICK_PY
     builtin_mean.run(chk, PROP, builtin_mean.make_scenarios(chk.tier, chk.seed, models=pym,
                                                             per_model=20 if thorough else 5), "python-builtin")
     chk.cov["rule"] = (
         "twins: every simulated PdMesh behaviour (scenario lengths/weights/cutoff/validity) is run on one "
         "generated definition emitted as embedded C and as numpy Python; both traces validated bit-exactly by "
-        "PdMeshTrace and compared by Twin events.  definitions: TLC-enumerated base definitions and single-fault "
+        "PdMeshTrace and compared by Twin events; a definition with a vector parameter name[n] (three table orders) run in "
+        "both forms on explicit dyadic meshes, Twin events.  definitions: TLC-enumerated base definitions and single-fault "
         "mutations (17 fault kinds) loaded in both forms; DefinitionTrace requires loaded <=> WellFormed.  "
         "builtin pure-Python models validated by MeanTrace.")
     chk.assumptions += [
